@@ -128,3 +128,1433 @@ NONDEC_NUMERIC = "²³¹½Ⅷ四"
 
 def coq_str(s: str) -> str:
     return "[" + ";".join(str(ord(c)) for c in s) + "]%N" if s else "(@nil N)"
+
+
+def _check_alphabet():
+    def coq_dec(c):
+        o = ord(c)
+        return 48 <= o <= 57 or 1632 <= o <= 1641 or 2406 <= o <= 2415 or 65296 <= o <= 65305
+    for c in DEC_DIGITS + NONDEC_NUMERIC + NAME_CHARS + SPECIAL_CHARS + " \t\r":
+        assert c.isdecimal() == coq_dec(c), c
+    for c in NONDEC_NUMERIC:
+        assert c.isnumeric() and not c.isdecimal()
+
+
+NAME_CHARS = "abfghxyzABFGKβΔ_-.01'"
+SPECIAL_CHARS = "*(,):;~#\n"
+BLANKS = [" ", " ", " ", "\t", "\r", "  "]
+_check_alphabet()
+
+
+# ---------------------------------------------------------------------------
+# generated languages
+
+class GLang:
+    """A language: base types with parents, compound type operators, synonyms,
+    operators with concrete or schematic types.  Type ASTs are (name, [args])
+    or ('_', []); ids on the Coq side: Top 0, Bottom 1, Product 4, type
+    operators 5.., synonyms 100.."""
+
+    def __init__(self, rng: random.Random, fixed: int | None = None):
+        r = rng
+        bnames = ["A", "B", "C", "D", "Δ", "Rel"][: r.randint(2, 6)]
+        self.base = []            # (name, parent name or None)
+        for i, n in enumerate(bnames):
+            par = r.choice(bnames[:i]) if i and r.random() < 0.65 else None
+            self.base.append((n, par))
+        cn = ["F", "G", "K2"][: r.randint(1, 3)]
+        self.comp = [(n, (1 if n == "F" else r.randint(1, 2)), r.random() < 0.8) for n in cn]  # name, arity, covariant
+        self.syn0 = []            # (name, type ast)
+        self.syn1 = []            # (name, compound name, fixed second arg or None)
+        if r.random() < 0.7:
+            self.syn0.append(("S0", self.gen_ty(r, 1, noprod=False)))
+        if r.random() < 0.6:
+            c = r.choice(self.comp)
+            self.syn1.append(("S1", c[0], None if c[1] == 1 else self.gen_ty(r, 0)))
+        self.tyid = {}
+        for i, (n, _) in enumerate(self.base):
+            self.tyid[n] = (5 + i, 0)
+        for i, (n, ar, _) in enumerate(self.comp):
+            self.tyid[n] = (5 + len(self.base) + i, ar)
+        for i, (n, _) in enumerate(self.syn0):
+            self.tyid[n] = (100 + i, 0)
+        for i, (n, _, _) in enumerate(self.syn1):
+            self.tyid[n] = (110 + i, 1)
+        # operators: name -> ('fun', [param asts], result ast) | ('const', ast) | ('schema', kind)
+        self.ops = {}
+        onames = ["f", "g", "h", "x2", "f-1", "βeta", "k.z", "2x", "app'"]
+        r.shuffle(onames)
+        nops = r.randint(3, 7)
+        for n in onames[:nops]:
+            k = r.random()
+            if k < 0.62:
+                ar = r.choice([1, 1, 2, 2, 3])
+                self.ops[n] = ("fun", [self.gen_ty(r, 1) for _ in range(ar)], self.gen_ty(r, 1))
+            elif k < 0.74:
+                self.ops[n] = ("const", self.gen_ty(r, 1))
+            else:
+                self.ops[n] = ("schema", r.choice(["id", "wrap", "pair", "sub", "fst"]))
+        if not any(v[0] == "fun" for v in self.ops.values()):
+            self.ops["f"] = ("fun", [self.gen_ty(r, 1)], self.gen_ty(r, 1))
+        self.opid = {n: i for i, n in enumerate(self.ops)}
+        self.built = False
+
+    # ----- type ASTs
+    def gen_ty(self, r, depth, noprod=True, var=0.0):
+        if var and r.random() < var:
+            return ("_", [])
+        if depth <= 0 or r.random() < 0.5:
+            k = r.random()
+            if k < 0.06:
+                return ("Top", [])
+            return (r.choice(self.base)[0], [])
+        if not noprod and r.random() < 0.25:
+            return ("*", [self.gen_ty(r, depth - 1, noprod, var), self.gen_ty(r, depth - 1, noprod, var)])
+        n, ar, _ = r.choice(self.comp)
+        return (n, [self.gen_ty(r, depth - 1, noprod, var) for _ in range(ar)])
+
+    def parents(self, n):
+        d = dict(self.base)
+        out = []
+        while d.get(n):
+            n = d[n]
+            out.append(n)
+        return out
+
+    def children(self, n):
+        return [c for c, p in self.base if p == n]
+
+    def sub_ty(self, r, t):
+        """a subtype (or the type itself), moving covariant leaves down"""
+        n, args = t
+        if n in ("_", "Top", "Bottom", "*") or args:
+            cov = {c: v for c, _, v in self.comp}
+            if args and cov.get(n, n == "*"):
+                return (n, [self.sub_ty(r, a) for a in args])
+            return t
+        ch = self.children(n)
+        if ch and r.random() < 0.5:
+            return self.sub_ty(r, (r.choice(ch), []))
+        return t
+
+    def sup_ty(self, r, t):
+        n, args = t
+        if r.random() < 0.15:
+            return ("Top", [])
+        if not args and n not in ("_", "Top", "Bottom"):
+            ps = self.parents(n)
+            if ps and r.random() < 0.6:
+                return (r.choice(ps), [])
+        return t
+
+    # ----- real objects
+    def build(self):
+        import transforge.type as T
+        import transforge.expr as E
+        import transforge.lang as L
+        self.T, self.E, self.L = T, E, L
+        ty = {}
+        for n, par in self.base:
+            ty[n] = T.TypeOperator(n, supertype=ty[par] if par else None)
+        for n, ar, cov in self.comp:
+            ty[n] = T.TypeOperator(n, params=[T.Variance.CO if cov else T.Variance.CONTRA] * ar)
+        self.ty = ty
+        scope = dict(ty)
+        for n, ast in self.syn0:
+            scope[n] = T.TypeAlias(self.mk(ast), n)
+        for n, cname, second in self.syn1:
+            c = ty[cname]
+            if second is None:
+                scope[n] = T.TypeAlias((lambda c: lambda x: c(x))(c), n)
+            else:
+                scope[n] = T.TypeAlias((lambda c, s: lambda x: c(x, s))(c, self.mk(second)), n)
+        self.alias = {n: scope[n] for n in [s[0] for s in self.syn0] + [s[0] for s in self.syn1]}
+        A0 = ty[self.base[0][0]]
+        F0 = ty[self.comp[0][0]]
+        far = self.comp[0][1]
+        for n, d in self.ops.items():
+            if d[0] == "fun":
+                t = self.mk(d[2])
+                for p in reversed(d[1]):
+                    t = self.mk(p) ** t
+                scope[n] = E.Operator(type=t, name=n)
+            elif d[0] == "const":
+                scope[n] = E.Operator(type=self.mk(d[1]), name=n)
+            else:
+                k = d[1]
+                if k == "id":
+                    sch = T.TypeSchema(lambda x: x ** x)
+                elif k == "wrap":
+                    sch = T.TypeSchema((lambda F0, far, A0: (lambda x: x ** (F0(x) if far == 1 else F0(x, A0))))(F0, far, A0))
+                elif k == "pair":
+                    sch = T.TypeSchema(lambda x, y: x ** y ** (x * y))
+                elif k == "sub":
+                    sch = T.TypeSchema((lambda A0: lambda x: (x ** x)[x <= A0])(A0))
+                else:
+                    sch = T.TypeSchema(lambda x, y: (x * y) ** x)
+                scope[n] = E.Operator(type=sch, name=n)
+        self.lang = L.Language(scope=scope)
+        self.built = True
+        return self
+
+    def mk(self, ast):
+        """type AST -> fresh transforge type"""
+        T = self.T
+        n, args = ast
+        if n == "_":
+            return T.TypeVariable()
+        if n == "Top":
+            return T.Top()
+        if n == "Bottom":
+            return T.Bottom()
+        if n == "*":
+            return T.Product(*(self.mk(a) for a in args))
+        if n in self.ty:
+            return self.ty[n](*(self.mk(a) for a in args))
+        al = self.alias[n]
+        return al(*(self.mk(a) for a in args)) if args else al.instance()
+
+    def mk_pty(self, enc, pos=0):
+        """model type encoding -> (fresh transforge type, next position)"""
+        T = self.T
+        if enc[pos] == 0:
+            return T.TypeVariable(), pos + 1
+        c, n = enc[pos + 1], enc[pos + 2]
+        pos += 3
+        args = []
+        for _ in range(n):
+            a, pos = self.mk_pty(enc, pos)
+            args.append(a)
+        if c == 0:
+            return T.Top(), pos
+        if c == 1:
+            return T.Bottom(), pos
+        if c == 4:
+            return T.Product(*args), pos
+        name = self.idname[c]
+        if name in self.ty:
+            return self.ty[name](*args), pos
+        al = self.alias[name]
+        return (al(*args) if args else al.instance()), pos
+
+    def coq_defs(self, k: int) -> str:
+        self.idname = {i: n for n, (i, _) in self.tyid.items()}
+        lo = "; ".join(f"({coq_str(n)}, {i})" for n, i in self.opid.items())
+        lt = "; ".join(f"({coq_str(n)}, ({i}, {a}))" for n, (i, a) in self.tyid.items())
+        return (f"Definition lo_{k} (t : str) : option nat := assoc t [{lo}].\n"
+                f"Definition lt_{k} (t : str) : option (nat * nat) := assoc t [{lt}].\n")
+
+    def describe(self):
+        return {"base": self.base, "compound": self.comp, "syn0": self.syn0, "syn1": self.syn1,
+                "operators": {n: (d if d[0] != "fun" else ["fun", d[1], d[2]]) for n, d in self.ops.items()}}
+
+
+def ty_text(ast) -> str:
+    n, args = ast
+    if n == "*":
+        return "(" + " * ".join(ty_text(a) for a in args) + ")"
+    return n + ("(" + ", ".join(ty_text(a) for a in args) + ")" if args else "")
+
+
+# ---------------------------------------------------------------------------
+# expression trees:  ('op', name) | ('dash',) | ('num', n) | ('app', f, x) | ('ann', e, T)
+
+class TreeGen:
+    def __init__(self, rng, gl: GLang):
+        self.r, self.gl = rng, gl
+        self.inputs = []      # declared input types (AST or None = untyped Source())
+
+    def source(self, t):
+        r = self.r
+        k = r.random()
+        if k < 0.07:
+            # a supertype: calling the operator on it is a type error, and it must be one
+            # in every notation
+            return ("ann", ("dash",), self.gl.sup_ty(r, t))
+        if k < 0.55:
+            return ("ann", ("dash",), self.gl.sub_ty(r, t))
+        if k < 0.66:
+            return ("dash",)
+        # numbered input
+        if self.inputs and r.random() < 0.5:
+            n = r.randrange(len(self.inputs))
+        else:
+            if len(self.inputs) >= 3:
+                n = r.randrange(len(self.inputs))
+            else:
+                self.inputs.append(self.gl.sub_ty(r, t) if r.random() < 0.6 else None)
+                n = len(self.inputs) - 1
+        e = ("num", n + 1)
+        if r.random() < 0.3:
+            e = ("ann", e, self.gl.sup_ty(r, t) if r.random() < 0.8 else t)
+        return e
+
+    def expr(self, t, depth):
+        """an expression meant to have a type <= t (t None: anything)"""
+        r, gl = self.r, self.gl
+        if t is None or t[0] == "_":
+            t = gl.gen_ty(r, 1)
+        if depth <= 0 or r.random() < 0.3:
+            return self.source(t)
+        cands = []
+        for n, d in gl.ops.items():
+            if d[0] == "fun" and self.compatible(d[2], t):
+                cands.append(n)
+            elif d[0] == "const" and self.compatible(d[1], t):
+                cands.append(n)
+        if r.random() < 0.12:
+            cands = list(gl.ops)       # possibly ill-typed
+        if not cands:
+            return self.source(t)
+        e = self.apply_op(r.choice(cands), depth)
+        if r.random() < 0.15:
+            e = ("ann", e, gl.sup_ty(r, t) if r.random() < 0.85 else gl.gen_ty(r, 1))
+        return e
+
+    def compatible(self, a, b):
+        """syntactic a <= b on ASTs (covariant only, conservative)"""
+        if b[0] == "Top":
+            return True
+        if a[0] != b[0]:
+            return not a[1] and not b[1] and b[0] in self.gl.parents(a[0])
+        cov = {c: v for c, _, v in self.gl.comp}
+        if a[1] and not cov.get(a[0], True):
+            return a == b
+        return len(a[1]) == len(b[1]) and all(self.compatible(x, y) for x, y in zip(a[1], b[1]))
+
+    def apply_op(self, n, depth, partial=0.1):
+        r, gl = self.r, self.gl
+        d = gl.ops[n]
+        e = ("op", n)
+        if d[0] == "fun":
+            params = d[1]
+        elif d[0] == "const":
+            return e
+        else:
+            params = {"id": [None], "wrap": [None], "pair": [None, None], "sub": [(gl.base[0][0], [])],
+                      "fst": [("*", [gl.gen_ty(r, 0), gl.gen_ty(r, 0)])]}[d[1]]
+        k = len(params)
+        if r.random() < partial:
+            k = r.randint(0, len(params))
+        for p in params[:k]:
+            if p is not None and p[0] == "*":
+                x = ("ann", ("dash",), p) if r.random() < 0.7 else self.source(p)
+            else:
+                x = self.expr(p, depth - 1)
+            e = ("app", e, x)
+        return e
+
+    def tree(self, depth):
+        r, gl = self.r, self.gl
+        self.inputs = []
+        n = r.choice([n for n, d in gl.ops.items() if d[0] != "const"] or list(gl.ops))
+        e = self.apply_op(n, depth, partial=0.2)
+        if r.random() < 0.2:
+            e = ("ann", e, ("Top", []) if r.random() < 0.5 else gl.gen_ty(r, 1))
+        return e, list(self.inputs)
+
+
+def tree_size(e):
+    return 1 + sum(tree_size(x) for x in e[1:] if isinstance(x, tuple) and x and x[0] in ("op", "dash", "num", "app", "ann"))
+
+
+def strip_ann(e):
+    if e[0] == "app":
+        return ("app", strip_ann(e[1]), strip_ann(e[2]))
+    if e[0] == "ann":
+        return strip_ann(e[1])
+    return e
+
+
+def tree_text(e) -> str:
+    if e[0] == "op":
+        return e[1]
+    if e[0] == "dash":
+        return "-"
+    if e[0] == "num":
+        return str(e[1])
+    if e[0] == "app":
+        return f"({tree_text(e[1])} {tree_text(e[2])})"
+    return f"({tree_text(e[1])} : {ty_text(e[2])})"
+
+
+# ---------------------------------------------------------------------------
+# renderings (the relations Renders / Junked / Layout of the Coq development)
+
+class Renderer:
+    def __init__(self, rng, style=None):
+        self.r = rng
+        # style knobs, drawn per rendering so that pure styles occur too
+        r = rng
+        self.p_call = r.choice([0.0, 0.3, 0.7, 1.0])      # f(x, y) instead of f x y
+        self.p_paren = r.choice([0.0, 0.15, 0.4])         # redundant brackets
+        self.p_left = r.choice([0.0, 0.3, 0.8])           # (f x) y
+        self.p_nl = r.choice([0.0, 0.0, 0.1, 0.25])       # newlines
+        self.p_comment = r.choice([0.0, 0.0, 0.08, 0.2])  # comments
+        self.p_blank = r.choice([0.0, 0.3, 0.8])          # optional blanks
+        self.digits = r.random() < 0.2                    # non-ASCII decimal digits, leading zeros
+        self.used = set()
+
+    # ----- expressions
+    def items(self, e):
+        """spine of e: list of ('arg', e') / ('ann', T)"""
+        r = self.r
+        if e[0] == "app":
+            if r.random() < self.p_left:
+                self.used.add("left-grouped")
+                return [("arg", e)]        # will be bracketed as a whole
+            return self.items(e[1]) + [("arg", e[2])]
+        if e[0] == "ann":
+            return self.items(e[1]) + [("ann", e[2])]
+        return [("arg", e)]
+
+    def seq(self, e, top=False):
+        r = self.r
+        its = self.items(e)
+        if len(its) == 1 and its[0][0] == "arg" and its[0][1] is e and e[0] in ("app", "ann"):
+            # must split at least once, otherwise infinite regress
+            if e[0] == "app":
+                its = [("arg", e[1]), ("arg", e[2])] if r.random() < 0.5 or e[1][0] not in ("app", "ann") \
+                    else self.items_split(e)
+            else:
+                its = [("arg", e[1]), ("ann", e[2])]
+        out = []
+        i = 0
+        while i < len(its):
+            kind, x = its[i]
+            if kind == "ann":
+                out.append(":")
+                out += self.ty_top(x)
+                self.used.add("annotation")
+                i += 1
+                continue
+            # a run of arguments may be written as one bracket with commas
+            j = i
+            while j < len(its) and its[j][0] == "arg":
+                j += 1
+            if i > 0 and r.random() < self.p_call:
+                k = r.randint(i + 1, j)
+                out.append("(")
+                for m in range(i, k):
+                    if m > i:
+                        out.append(",")
+                    out += self.seq(its[m][1])
+                out.append(")")
+                self.used.add("call" if k - i > 1 else "call1")
+                i = k
+                continue
+            out += self.arg(x, head=(i == 0))
+            i += 1
+        return out
+
+    def items_split(self, e):
+        return self.items(e[1]) + [("arg", e[2])]
+
+    def arg(self, a, head=False):
+        r = self.r
+        if a[0] in ("app", "ann"):
+            if head and r.random() < self.p_call * 0.5 and a[0] == "app":
+                # (x, y) = x y, but only with nothing before it at this level:
+                # f (x, y) is f x y
+                self.used.add("comma-group")
+                return ["("] + self.seq(a[1]) + [","] + self.seq(a[2]) + [")"]
+            return ["("] + self.seq(a) + [")"]
+        if r.random() < self.p_paren:
+            self.used.add("redundant-brackets")
+            return ["("] + self.arg(a, head=True) + [")"]
+        if a[0] == "op":
+            return [a[1]]
+        if a[0] == "dash":
+            return ["-"]
+        return [self.number(a[1])]
+
+    def number(self, n):
+        if not self.digits:
+            return str(n)
+        self.used.add("non-ascii-digits")
+        r = self.r
+        zero = r.choice("0٠०０")
+        base = r.choice(["0123456789", "٠١٢٣٤٥٦٧٨٩", "०१२३४५६७८९", "０１２３４５６７８９"])
+        s = "".join(base[int(c)] for c in str(n))
+        return (zero if r.random() < 0.4 else "") + s
+
+    # ----- types
+    def ty_top(self, t):
+        r = self.r
+        n, args = t
+        if n == "*" or r.random() < self.p_paren:
+            if n != "*":
+                self.used.add("type-brackets")
+            return ["("] + self.ty_in(t) + [")"]
+        if not args:
+            return [n]
+        return [n, "("] + self.ty_args(args) + [")"]
+
+    def ty_args(self, args):
+        out = []
+        for i, a in enumerate(args):
+            if i:
+                out.append(",")
+            out += self.ty_in(a)
+        return out
+
+    def ty_in(self, t):
+        r = self.r
+        n, args = t
+        if r.random() < self.p_paren:
+            self.used.add("type-brackets")
+            return ["("] + self.ty_in(t) + [")"]
+        if n == "*":
+            self.used.add("product")
+            a, b = args
+            if a[1] or r.random() < self.p_paren:      # left operand: an atom or bracketed
+                left = ["("] + self.ty_in(a) + [")"]
+            else:
+                left = [a[0]]
+            return left + ["*"] + self.ty_in(b)
+        if not args:
+            return [n]
+        return [n, "("] + self.ty_args(args) + [")"]
+
+    # ----- junk and layout
+    def junk(self):
+        r = self.r
+        out = []
+        while True:
+            k = r.random()
+            if k < self.p_nl:
+                out.append("\n")
+                self.used.add("newline")
+            elif k < self.p_nl + self.p_comment:
+                body = "".join(r.choice("abc xyz(),:;*-_~#1² \t") for _ in range(r.randint(0, 8)))
+                out.append("#" + body + "\n")
+                self.used.add("comment")
+            else:
+                return out
+
+    def layout(self, core, trailing_comment=True):
+        r = self.r
+        s = ""
+        prev_word = False
+        for t in core:
+            j = "".join(self.junk())
+            word = t not in SPECIAL_CHARS
+            blank = r.choice(BLANKS) if r.random() < self.p_blank else ""
+            if not j and prev_word and word and not blank:
+                blank = " "
+            if j:
+                # blanks around junk are optional
+                s += blank + j + (r.choice(BLANKS) if r.random() < self.p_blank else "")
+            else:
+                s += blank
+            s += t
+            prev_word = word
+        s += "".join(self.junk())
+        if trailing_comment and r.random() < self.p_comment:
+            s += " # " + "".join(r.choice("abc (:") for _ in range(r.randint(0, 5)))
+            self.used.add("comment-at-end")
+        elif r.random() < self.p_blank:
+            s += r.choice(BLANKS)
+        return s
+
+    def render(self, e):
+        core = self.seq(e, top=True)
+        if self.r.random() < self.p_paren:
+            core = ["("] + core + [")"]
+            self.used.add("redundant-brackets")
+        return core, self.layout(core)
+
+
+def plain_render(e) -> str:
+    """f x y with the brackets that are needed, one blank between tokens"""
+    def arg(a):
+        return "(" + seq(a) + ")" if a[0] in ("app", "ann") else seq(a)
+
+    def seq(a):
+        if a[0] == "app":
+            return seq(a[1]) + " " + arg(a[2])
+        if a[0] == "ann":
+            t = ty_text(a[2])
+            return seq(a[1]) + " : " + t
+        return {"op": lambda: a[1], "dash": lambda: "-", "num": lambda: str(a[1])}[a[0]]()
+    return seq(e)
+
+
+# ---------------------------------------------------------------------------
+# the implementation side
+
+DECLARED = None
+
+
+def declared_family(gl: GLang, ex: BaseException):
+    """code of a declared error class, or None for anything else"""
+    L, T, E = gl.L, gl.T, gl.E
+    for cls, code in ((L.BracketMismatch, 1), (L.EmptyParse, 2), (L.UndefinedTokenError, 3),
+                      (L.MissingInputError, 4), (L.ParseError, 5), (T.TypingError, 6),
+                      (E.ApplicationError, 7)):
+        if isinstance(ex, cls):
+            return code
+    return None
+
+
+def crash_site(ex: BaseException) -> str:
+    import traceback
+    tb = traceback.extract_tb(ex.__traceback__)
+    fr = [f for f in tb if f.filename.endswith(("lang.py", "expr.py", "type.py"))]
+    f = fr[-1] if fr else tb[-1]
+    return f"{type(ex).__name__}@{f.filename.rsplit('/', 1)[-1]}:{f.name}:{(f.line or '').strip()}"
+
+
+def mk_inputs(gl: GLang, decl):
+    return [gl.E.Source(gl.mk(t)) if t is not None else gl.E.Source() for t in decl]
+
+
+def canon_type(t, vars_):
+    T = canon_type.T
+    t = t.follow()
+    if isinstance(t, T.TypeOperation):
+        return (t.operator.name, tuple(canon_type(p, vars_) for p in t.params))
+    k = id(t)
+    if k not in vars_:
+        vars_[k] = len(vars_)
+    return ("?", vars_[k], t.lower.name if t.lower else None, t.upper.name if t.upper else None,
+            bool(t.wildcard))
+
+
+def canon_expr(gl: GLang, e, inputs, vars_=None, with_types=True):
+    """structure and the type of every node (variables numbered by first occurrence)"""
+    canon_type.T = gl.T
+    E = gl.E
+    vars_ = {} if vars_ is None else vars_
+    ty = (lambda x: canon_type(x.type, vars_)) if with_types else (lambda x: None)
+    if isinstance(e, E.Application):
+        t = ty(e)
+        return ("app", canon_expr(gl, e.f, inputs, vars_, with_types),
+                canon_expr(gl, e.x, inputs, vars_, with_types), t)
+    if isinstance(e, E.Operation):
+        return ("op", e.operator.name, ty(e))
+    if isinstance(e, E.Source):
+        for i, x in enumerate(inputs):
+            if x is e:
+                return ("in", i, ty(e))
+        return ("src", ty(e))
+    return ("other", type(e).__name__)
+
+
+def impl_parse(gl: GLang, s: str, decl):
+    """-> (code, canonical form | error text, expr, inputs, crash site)"""
+    inputs = mk_inputs(gl, decl)
+    t0 = time.time()
+    try:
+        e = gl.lang.parse(s, *inputs)
+    except Exception as ex:   # noqa: BLE001 - classifying every exception is the point
+        code = declared_family(gl, ex)
+        if code is None:
+            return (99, crash_site(ex), None, inputs, time.time() - t0)
+        name = type(ex).__name__
+        if code == 3:
+            name += ":" + repr(getattr(ex, "token", None))
+        return (code, name, None, inputs, time.time() - t0)
+    dt = time.time() - t0
+    return (0, None, e, inputs, dt)
+
+
+def fixed_canon(gl, e, inputs):
+    try:
+        e.fix()
+    except Exception as ex:   # noqa: BLE001
+        return ("fix-raised", type(ex).__name__)
+    return canon_expr(gl, e, inputs)
+
+
+# ----- the model's events executed with real objects
+
+def dec_val(enc, pos=0):
+    k = enc[pos]
+    if k == 0:
+        return ("op", enc[pos + 1], enc[pos + 2]), pos + 3
+    if k == 1:
+        return ("src", enc[pos + 1]), pos + 2
+    if k == 2:
+        return ("in", enc[pos + 1]), pos + 2
+    f, p = dec_val(enc, pos + 2)
+    x, p = dec_val(enc, p)
+    return ("app", enc[pos + 1], f, x), p
+
+
+def replay_events(gl: GLang, events, decl, result=None):
+    """Execute construction events (model encoding) with transforge objects.
+    -> (code, root object or None, inputs).  The calls are the ones parse_expr
+    makes with fix=True, unify=True."""
+    E, T, L = gl.E, gl.T, gl.L
+    inputs = mk_inputs(gl, decl)
+    objs = {}
+    opname = {i: n for n, i in gl.opid.items()}
+
+    def ref(v):
+        return inputs[v[1]] if v[0] == "in" else objs[v[1]]
+    try:
+        for ev in events:
+            kind = ev[0]
+            v, pos = dec_val(ev, 1)
+            if kind == 0:
+                objs[v[1]] = gl.lang.operators[opname[v[2]]].instance()
+            elif kind == 1:
+                objs[v[1]] = E.Source()
+            elif kind == 2:
+                objs[v[1]] = E.Application(ref(v[2]), ref(v[3]), True, True)
+            else:
+                o = ref(v)
+                t, _ = gl.mk_pty(ev, pos)
+                if kind == 3:
+                    o.type = t
+                try:
+                    o.type.unify(t, subtype=True)
+                except T.TypingError as ex:
+                    raise L.TypeAnnotationError(o, t, None) from ex
+    except Exception as ex:   # noqa: BLE001
+        code = declared_family(gl, ex)
+        return (code if code is not None else 99), None, inputs, type(ex).__name__
+    root = None
+    if result:
+        rv, _ = dec_val(result, 0)
+        root = ref(rv)
+    return 0, root, inputs, None
+
+
+def spec_events(gl: GLang, e, ninputs):
+    """Python mirror of ExSpec.build with a type checker that accepts
+    everything: the events (model encoding) and the result value."""
+    ctr = [0]
+    evs = []
+
+    def enc_ty(t):
+        n, args = t
+        if n == "_":
+            return [0]
+        c = {"Top": 0, "Bottom": 1, "*": 4}.get(n)
+        if c is None:
+            c = gl.tyid[n][0]
+        out = [1, c, len(args)]
+        for a in args:
+            out += enc_ty(a)
+        return out
+
+    def go(x):
+        if x[0] == "op":
+            v = [0, ctr[0], gl.opid[x[1]]]
+            ctr[0] += 1
+            evs.append([0] + v)
+            return v
+        if x[0] == "dash":
+            v = [1, ctr[0]]
+            ctr[0] += 1
+            evs.append([1] + v)
+            return v
+        if x[0] == "num":
+            n = x[1]
+            k = (ninputs - 1) if n == 0 else (n - 1)
+            if k < 0 or k >= ninputs:
+                raise IndexError
+            return [2, k]
+        if x[0] == "app":
+            f = go(x[1])
+            a = go(x[2])
+            v = [3, ctr[0]] + f + a
+            ctr[0] += 1
+            evs.append([2] + v)
+            return v
+        v = go(x[1])
+        evs.append([3 if x[1][0] == "dash" else 4] + v + enc_ty(x[2]))
+        return v
+    try:
+        res = go(e)
+    except IndexError:
+        return evs, None
+    return evs, res
+
+
+def pythonic(gl: GLang, e, decl):
+    """Calling the operators as Python objects, f(x, y) style: all arguments
+    of a call are evaluated before the call."""
+    E, T, L = gl.E, gl.T, gl.L
+    inputs = mk_inputs(gl, decl)
+
+    def spine(x):
+        args = []
+        while x[0] == "app":
+            args.append(x[2])
+            x = x[1]
+        return x, args[::-1]
+
+    def go(x):
+        if x[0] == "op":
+            return gl.lang.operators[x[1]]
+        if x[0] == "dash":
+            return E.Source()
+        if x[0] == "num":
+            return inputs[x[1] - 1]
+        if x[0] == "ann":
+            if x[1][0] == "dash":
+                return E.Source(gl.mk(x[2]))
+            v = E.Expr.shorthand(go(x[1]))
+            t = gl.mk(x[2])
+            try:
+                v.type.unify(t, subtype=True)
+            except T.TypingError as ex:
+                raise L.TypeAnnotationError(v, t, None) from ex
+            return v
+        head, args = spine(x)
+        h = go(head)
+        vals = [go(a) for a in args]
+        return h(*vals)
+    try:
+        v = E.Expr.shorthand(go(e))
+    except Exception as ex:   # noqa: BLE001
+        code = declared_family(gl, ex)
+        return (code if code is not None else 99), None, inputs, type(ex).__name__
+    return 0, v, inputs, None
+
+
+# ---------------------------------------------------------------------------
+# malformed strings
+
+FUZZ_ALPHABET = (["Top", "Bottom", "zz", "Unit"]
+                 + ["-", "-", "-", "(", "(", "(", ")", ")", ")", ",", ",", ":", ":", ":", ";", "*", "*", "_", "#", "\n",
+                    "~", " ", " ", "\t"]
+                 + list("0123") + ["10", "٣", "０", "²", "½", "1²", "Ⅷ", "四"])
+
+
+def mutate_string(r: random.Random, s: str, names) -> str:
+    alpha = FUZZ_ALPHABET + list(names) * 2
+    for _ in range(r.choice([1, 1, 1, 2, 3])):
+        k = r.random()
+        i = r.randrange(len(s) + 1)
+        if k < 0.35 and s:
+            j = min(len(s), i + r.choice([1, 1, 2]))
+            s = s[:i] + s[j:]
+        elif k < 0.75:
+            s = s[:i] + r.choice(alpha) + s[i:]
+        elif k < 0.9 and s:
+            j = min(len(s), i + 1)
+            s = s[:i] + r.choice(alpha) + s[j:]
+        elif s:
+            j = r.randrange(len(s))
+            a, b = min(i, j), max(i, j)
+            s = s[:a] + s[a:b] * 2 + s[b:]
+    return s
+
+
+def random_string(r: random.Random, names) -> str:
+    alpha = FUZZ_ALPHABET + list(names) * 3
+    n = r.choice([1, 2, 3, 4, 5, 6, 8, 12])
+    return "".join(r.choice(alpha) + r.choice(["", " ", " "]) for _ in range(n))
+
+
+# ---------------------------------------------------------------------------
+# model evaluation
+
+def model_eval(tag: str, groups, nfiles=4):
+    """groups: list of (GLang, [(ninputs, string)], [type strings]).
+    -> per group (list of pobs results, list of tobs results)"""
+    blocks = []
+    for k, (gl, cases, tys) in enumerate(groups):
+        txt = gl.coq_defs(k)
+        n = 0
+        if cases:
+            txt += (f"Eval vm_compute in map (fun p => pobs lo_{k} lt_{k} (fst p) (snd p)) ["
+                    + ";\n ".join(f"({ni}, {coq_str(s)})" for ni, s in cases) + "].\n")
+            txt += (f"Eval vm_compute in map (fun s => map (map N.to_nat) (tokenize ex_specials s)) ["
+                    + ";\n ".join(coq_str(s) for _, s in cases) + "].\n")
+            n += 2
+        if tys:
+            txt += (f"Eval vm_compute in map (tobs lt_{k}) [" + ";\n ".join(coq_str(s) for s in tys) + "].\n")
+            n += 1
+        blocks.append((txt, n))
+    outs = C.coq_eval_blocks(tag, HDR, blocks, nfiles=nfiles)
+    res = []
+    for (gl, cases, tys), vals in zip(groups, outs):
+        i = 0
+        pob = tok = tob = []
+        if cases:
+            pob, tok = vals[0], vals[1]
+            i = 2
+        if tys:
+            tob = vals[i]
+        res.append((pob, tok, tob))
+    return res
+
+
+# ---------------------------------------------------------------------------
+# one string: implementation vs model
+
+def check_string(gl: GLang, s: str, decl, pob, tok):
+    """-> dict(impl, model, predicted, agree, tokens_agree, site, canon)"""
+    L = gl.L
+    itoks = [[ord(c) for c in t] for t in L.tokenize(s, "*(,):;~#\n")]
+    out = {"tokens_agree": itoks == tok, "model": pob[0][0], "model_loop": pob[0][1]}
+    code, info, e, inputs, dt = impl_parse(gl, s, decl)
+    out["impl"] = code
+    out["info"] = info
+    out["dt"] = dt
+    events = pob[2:]
+    rcode, root, rinputs, rname = replay_events(gl, events, decl, pob[1] if pob[0][0] == 0 else None)
+    out["predicted"] = rcode if rcode != 0 else pob[0][0]
+    out["agree"] = (out["predicted"] == code) and pob[0][0] == pob[0][1]
+    out["expr"] = e
+    out["inputs"] = inputs
+    if code == 0 and out["predicted"] == 0:
+        ci = fixed_canon(gl, e, inputs)
+        cr = fixed_canon(gl, root, rinputs)
+        out["canon"] = ci
+        if ci != cr:
+            out["agree"] = False
+            out["canon_model"] = cr
+    return out
+
+
+def ann_flags(events):
+    return [ev[0] == 3 for ev in events if ev[0] in (3, 4)]
+
+
+def root_cause(gl: GLang, s: str, pob, info=None):
+    """Attribute a disagreement to one of the two notation defects of the
+    pinned parser, or None."""
+    if info in ("UndefinedTokenError:'\\n'", "UndefinedTokenError:'#'"):
+        # only parse_type looks these tokens up: a newline or a comment
+        # inside a type annotation
+        return "C13:newline-or-comment-inside-type-annotation"
+    toks = list(gl.L.tokenize(s, "*(,):;~#\n"))
+    comment = False
+    prevs = []
+    prev = ""
+    for t in toks:
+        if t == "#":
+            comment = True
+        elif t == "\n":
+            comment = False
+        elif not comment and t == ":":
+            prevs.append(prev == "-")
+        prev = t
+    flags = ann_flags(pob[2:])
+    if flags != prevs[:len(flags)]:
+        # an annotation was made exact (or not) by the token before the colon
+        # and not by what is annotated
+        return "C13:anonymous-source-annotation-decided-by-previous-token"
+    return None
+
+
+# ---------------------------------------------------------------------------
+# Expr.match
+
+def match_key(gl, c):
+    """shape, operators and source types of a canonical expression; a
+    non-wildcard variable never equals anything"""
+    uniq = [0]
+
+    def ty(t):
+        if t[0] == "?":
+            if t[4]:
+                return "wild"
+            uniq[0] += 1
+            return ("var", id(c), uniq[0])
+        return (t[0], tuple(ty(p) for p in t[1]))
+
+    def go(x):
+        if x[0] == "app":
+            return ("app", go(x[1]), go(x[2]))
+        if x[0] == "op":
+            return ("op", x[1])
+        if x[0] in ("src", "in"):
+            t = x[-1]
+            if t[0] == "?":
+                return ("src", ty(t))
+            return ("src", ty(t) if not has_var(t) else ("var", id(c), id(x)))
+        return x
+    return go(c)
+
+
+def has_var(t):
+    return t[0] == "?" or any(has_var(p) for p in t[1])
+
+
+def mx_coq(gl, c):
+    """canonical expression -> Coq mx term, or None if outside the model"""
+    ids = {"Top": 0, "Bottom": 1, "Unit": 2, "Function": 3, "Product": 4}
+
+    def ty(t):
+        if t[0] == "?":
+            return None
+        o = ids.get(t[0])
+        if o is None:
+            o = gl.tyid[t[0]][0]
+        args = [ty(p) for p in t[1]]
+        if any(a is None for a in args):
+            return None
+        return f"(TOp {o} [{'; '.join(args)}])"
+
+    def go(x):
+        if x[0] == "app":
+            f, a = go(x[1]), go(x[2])
+            return None if f is None or a is None else f"(MApp {f} {a})"
+        if x[0] == "op":
+            return f"(MOp {gl.opid[x[1]]})"
+        if x[0] in ("src", "in"):
+            t = x[-1]
+            if t[0] == "?":
+                return "(MSrc None)" if t[4] else None
+            s = ty(t)
+            return None if s is None else f"(MSrc (Some {s}))"
+        return None
+    return go(c)
+
+
+def hier_coq(gl) -> str:
+    par = {n: p for n, p in gl.base}
+    ps = "; ".join(f"({gl.tyid[n][0]}, {gl.tyid[p][0]})" for n, p in gl.base if p)
+    vs = "; ".join(f"({gl.tyid[n][0]}, [{'; '.join(['true' if cov else 'false'] * ar)}])"
+                   for n, ar, cov in gl.comp)
+    return f"(mk_hier [{ps}] [{vs}])"
+
+
+MHDR = """From Coq Require Import List Arith Bool.
+Import ListNotations.
+From TF Require Import Base.Hier Base.Ty Sub.Match Parse.ExMatch.
+"""
+
+
+# ---------------------------------------------------------------------------
+# token-level fuzzing (used by C17 as well)
+
+PROBES = [": {A}", "- : (* {A})", "- : *", "{f} ²", ") {f}", ") : {A}", "- : {F} *", "{f} ½ 1", "( ) )", ", {f}",
+          "{f} ٣", "- : {A} :", "{f} : : {A}", "(- : {A}) : {A} )", "- : ({A} * ) ", "- : {F}({A}", "{f}(,)", ";", "- : _ *"]
+
+
+def parser_fuzz(rep: C.Report, rng: random.Random, n: int) -> dict:
+    """Strings over the token alphabet (random, and mutated well-formed
+    expressions) through Language.parse / Language.parse_type of /repo and the
+    model.  Reports (property rep.pid, has_input=True) every exception outside
+    ParseError / TypingError / ApplicationError; returns counts."""
+    C.force_repo_on_path() if "transforge" not in __import__("sys").modules else None
+    nl = 4 if n <= 3000 else 12
+    groups = []
+    for k in range(nl):
+        gl = GLang(rng).build()
+        names = list(gl.ops) + list(gl.tyid)
+        tg = TreeGen(rng, gl)
+        per = max(1, n // nl)
+        cases = []
+        fmt = {"A": gl.base[0][0], "F": gl.comp[0][0], "f": next(iter(gl.ops))}
+        for p in PROBES:
+            cases.append((1, p.format(**fmt)))
+        while len(cases) < per:
+            k2 = rng.random()
+            if k2 < 0.45:
+                s = random_string(rng, names)
+            else:
+                e, decl = tg.tree(rng.choice([1, 2, 3]))
+                _, s0 = Renderer(rng).render(e)
+                s = mutate_string(rng, s0, names) if k2 < 0.9 else s0
+            if len(s) > 400:
+                continue
+            cases.append((rng.choice([0, 1, 2]), s))
+        tys = [s for _, s in cases if len(s) < 120][: max(20, per // 3)]
+        groups.append((gl, cases, tys))
+    res = model_eval(f"{rep.pid}_fuzz_{rep.tier}", groups)
+    counts = {"cases": 0, "type_cases": 0, "outcomes": {}, "undeclared": {}, "disagreements": 0,
+              "type_disagreements": 0, "token_disagreements": 0, "max_time_s": 0.0, "model_crash": 0,
+              "mutated_or_random": 0}
+    shown = set()
+    ndis = 0
+    for (gl, cases, tys), (pob, tok, tob) in zip(groups, res):
+        for (ni, s), po, tk in zip(cases, pob, tok):
+            counts["cases"] += 1
+            decl = [None] * ni
+            r = check_string(gl, s, decl, po, tk)
+            counts["max_time_s"] = max(counts["max_time_s"], r["dt"])
+            name = CODENAME.get(r["impl"], "undeclared") if r["impl"] != 99 else "undeclared"
+            counts["outcomes"][name] = counts["outcomes"].get(name, 0) + 1
+            if r["model"] >= 90:
+                counts["model_crash"] += 1
+            payload = {"kind": "fuzz", "string": s, "ninputs": ni, "language": gl.describe(),
+                       "impl": r["impl"], "impl_info": r["info"], "model": CODENAME.get(r["model"]),
+                       "predicted": CODENAME.get(r["predicted"]), "call": "Language.parse(string, *inputs)"}
+            if r["impl"] == 99:
+                sig = f"{rep.pid}:parser:{r['info']}"
+                counts["undeclared"][r["info"]] = counts["undeclared"].get(r["info"], 0) + 1
+                if sig not in shown:
+                    shown.add(sig)
+                    rep.violation(f"parser_crash_{len(shown)}", dict(payload,
+                        what="Language.parse raised an exception outside the declared families"),
+                        has_input=True, signature=sig)
+            elif r["dt"] > 2.0:
+                rep.violation(f"parser_slow_{counts['cases']}", dict(payload, what="parse took more than 2 s",
+                    seconds=r["dt"]), has_input=True)
+            elif not r["agree"] and rep.pid != "C13" and root_cause(gl, s, po, r["info"]) is not None:
+                # a notation defect that C13 reports (with its own signature)
+                counts["explained_by_C13"] = counts.get("explained_by_C13", 0) + 1
+            elif not r["agree"]:
+                counts["disagreements"] += 1
+                ndis += 1
+                if ndis <= 3:
+                    rep.violation(f"parser_model_{ndis}", dict(payload, kind="correspondence",
+                        what="Language.parse and the parser model (Parse/ExParser.v) differ"),
+                        has_input=False)
+            if not r["tokens_agree"]:
+                counts["token_disagreements"] += 1
+                if counts["token_disagreements"] <= 2:
+                    rep.violation(f"tokenize_model_{counts['token_disagreements']}", dict(payload,
+                        kind="correspondence", what="tokenize differs from the model"), has_input=False)
+        for s, to in zip(tys, tob):
+            counts["type_cases"] += 1
+            canon_type.T = gl.T
+            try:
+                t = gl.lang.parse_type(s)
+                icode, iobs = 0, canon_type(t, {})
+            except Exception as ex:   # noqa: BLE001
+                c = declared_family(gl, ex)
+                icode, iobs = (c if c is not None else 99), (crash_site(ex) if c is None else type(ex).__name__)
+            payload = {"kind": "fuzz", "string": s, "language": gl.describe(), "impl": icode, "impl_info": str(iobs),
+                       "model": CODENAME.get(to[0]), "call": "Language.parse_type(string)"}
+            if icode == 99:
+                sig = f"{rep.pid}:parser:{iobs}"
+                counts["undeclared"][iobs] = counts["undeclared"].get(iobs, 0) + 1
+                if sig not in shown:
+                    shown.add(sig)
+                    rep.violation(f"parser_crash_{len(shown)}", dict(payload,
+                        what="Language.parse_type raised an exception outside the declared families"),
+                        has_input=True, signature=sig)
+                continue
+            ok = icode == to[0]
+            if ok and icode == 0:
+                try:
+                    mt, _ = gl.mk_pty(to, 1)
+                    ok = canon_type(mt, {}) == iobs
+                except Exception:   # noqa: BLE001
+                    ok = False
+            if not ok:
+                counts["type_disagreements"] += 1
+                if counts["type_disagreements"] <= 3:
+                    rep.violation(f"parse_type_model_{counts['type_disagreements']}", dict(payload,
+                        kind="correspondence", what="Language.parse_type and the model differ"), has_input=False)
+    return counts
+
+
+# ---------------------------------------------------------------------------
+# the check
+
+def variant(rng, gl: GLang, e):
+    """a tree that differs from e in one operator, one source type or its shape"""
+    r = rng
+    k = r.random()
+
+    def leaves(x, path=()):
+        if x[0] == "app":
+            return leaves(x[1], path + (1,)) + leaves(x[2], path + (2,))
+        if x[0] == "ann":
+            return [(path, x)] + leaves(x[1], path + (1,))
+        return [(path, x)]
+
+    def put(x, path, new):
+        if not path:
+            return new
+        y = list(x)
+        y[path[0]] = put(x[path[0]], path[1:], new)
+        return tuple(y)
+    ls = leaves(e)
+    path, x = r.choice(ls)
+    if x[0] == "ann":
+        t2 = gl.gen_ty(r, 1)
+        return put(e, path, ("ann", x[1], t2)), "annotation type"
+    if x[0] == "op":
+        others = [n for n in gl.ops if n != x[1]]
+        if others:
+            return put(e, path, ("op", r.choice(others))), "operator"
+    if x[0] == "dash":
+        return put(e, path, ("ann", ("dash",), gl.gen_ty(r, 1))), "source type"
+    return ("app", e, ("ann", ("dash",), gl.gen_ty(r, 0))), "shape"
+
+
+def main(tier: str, seed: int, replay: str | None = None) -> int:
+    C.force_repo_on_path()
+    rep = C.Report("C13", tier, seed)
+    rep.proof_stage()
+    rng = random.Random(seed)
+    if tier == "quick":
+        nlang, ntree, nrend, nmal = 8, 7, 8, 40
+    else:
+        nlang, ntree, nrend, nmal = 60, 22, 10, 150
+    t_gen = time.time()
+
+    # ---- generate
+    work = []      # per language: gl, trees [(e, decl, [(core, string, used)])], malformed [(ninputs, string)]
+    groups = []
+    for k in range(nlang):
+        gl = GLang(rng).build()
+        tg = TreeGen(rng, gl)
+        names = list(gl.ops) + list(gl.tyid)
+        trees = []
+        cases = []
+        for _ in range(ntree * 3):
+            if len(trees) >= ntree:
+                break
+            e, decl = tg.tree(rng.choice([1, 2, 2, 3, 3, 4]))
+            if tree_size(e) > 40 or (tree_size(e) < 3 and rng.random() < 0.8):
+                continue
+            rends = [(None, plain_render(e), {"plain"})]
+            rends.append((None, plain_render(strip_ann(e)), {"without-annotations"}))
+            while len(rends) < nrend + 1:
+                rd = Renderer(rng)
+                core, s = rd.render(e)
+                if len(s) <= 600:
+                    rends.append((core, s, set(rd.used)))
+            trees.append((e, decl, rends))
+            cases += [(len(decl), s) for _, s, _ in rends]
+        mal = []
+        while len(mal) < nmal and trees:
+            e, decl, rends = rng.choice(trees)
+            s = mutate_string(rng, rng.choice(rends)[1], names)
+            if len(s) <= 600:
+                mal.append((len(decl) if rng.random() < 0.8 else rng.choice([0, 1, 2]), s, decl))
+        work.append((gl, trees, mal))
+        groups.append((gl, cases + [(ni, s) for ni, s, _ in mal], []))
+    res = model_eval(f"C13_{tier}", groups)
+
+    # ---- compare
+    n_eval = 0
+    feats = {}
+    outcomes = {}
+    dis = 0
+    undeclared = {}
+    distinct = set()
+    samples = []
+    sizes = []
+    n_trees = 0
+    pythonic_diff = 0
+    match_items = []     # (gl index, canon a, canon b, impl verdict, what)
+    viol = 0
+
+    per_key = {}
+
+    def violation(name, payload, **kw):
+        # a few replays per kind of failure and root cause
+        nonlocal viol
+        viol += 1
+        key = (name.split("_")[0], kw.get("signature"))
+        per_key[key] = per_key.get(key, 0) + 1
+        if per_key[key] <= 3 and len(per_key) <= 40:
+            rep.violation(name, payload, **kw)
+
+    for li, ((gl, trees, mal), (pob, tok, _)) in enumerate(zip(work, res)):
+        pos = 0
+        for ti, (e, decl, rends) in enumerate(trees):
+            n_trees += 1
+            sizes.append(tree_size(e))
+            base = {"language": gl.describe(), "tree": tree_text(e), "inputs": [ty_text(t) if t else "_" for t in decl],
+                    "call": "Language.parse(string, *inputs) with inputs Source(T) / Source()"}
+            # programmatic construction, curried order (the specification) ...
+            evs, resv = spec_events(gl, e, len(decl))
+            pcode, proot, pin, pname = replay_events(gl, evs, decl, resv)
+            pcanon = fixed_canon(gl, proot, pin) if pcode == 0 else None
+            # ... and f(x, y) style
+            ycode, yroot, yin, yname = pythonic(gl, e, decl)
+            ycanon = fixed_canon(gl, yroot, yin) if ycode == 0 else None
+            if pcode == 0 and (ycode != 0 or ycanon != pcanon):
+                pythonic_diff += 1
+                violation(f"callorder_{li}_{ti}", dict(base, kind="oracle",
+                    what="calling the operators with all arguments at once, f(x, y), gives another result than f(x)(y)",
+                    curried=str(pcanon), all_at_once=str(ycanon) if ycode == 0 else yname),
+                    has_input=True, signature="C13:result-depends-on-order-of-applications")
+            elif pcode != 0 and ycode not in (6, 7, pcode):
+                violation(f"callorder_{li}_{ti}", dict(base, kind="oracle",
+                    what="f(x)(y) raises a typing error, f(x, y) does not", curried=pname,
+                    all_at_once=yname or "no error"), has_input=True,
+                    signature="C13:result-depends-on-order-of-applications")
+            first = None
+            plain_struct = None
+            for ri, (core, s, used) in enumerate(rends):
+                po, tk = pob[pos], tok[pos]
+                pos += 1
+                n_eval += 1
+                r = check_string(gl, s, decl, po, tk)
+                for u in used:
+                    feats[u] = feats.get(u, 0) + 1
+                name = CODENAME.get(r["impl"], "undeclared") if r["impl"] != 99 else "undeclared"
+                outcomes[name] = outcomes.get(name, 0) + 1
+                payload = dict(base, string=s, impl=name, impl_info=r["info"], model=CODENAME.get(r["model"]),
+                               predicted=CODENAME.get(r["predicted"]))
+                if ri == 1:
+                    # the same tree without its annotations: only the shape is compared
+                    if r["impl"] == 0:
+                        plain_struct = canon_expr(gl, r["expr"], r["inputs"], with_types=False)
+                    if not r["agree"] and r["impl"] != 99:
+                        dis += 1
+                        violation(f"model_{li}_{ti}_{ri}", dict(payload, kind="correspondence",
+                            what="Language.parse and the parser model differ (K_C13)"), has_input=False)
+                    continue
+                if tree_size(e) >= 3 and ri >= 2:
+                    distinct.add(s)
+                if not r["tokens_agree"]:
+                    dis += 1
+                    violation(f"tokens_{li}_{ti}_{ri}", dict(payload, kind="correspondence",
+                        what="tokenize differs from the model"), has_input=False)
+                # the model must have made exactly the specification's calls (theorem C13_parse_render)
+                if po[2:] != evs or (resv is not None and po[0][0] == 0 and po[1] != resv):
+                    violation(f"harness_{li}_{ti}_{ri}", dict(payload, kind="correspondence",
+                        what="model events on a rendering differ from the specification's: renderer outside "
+                             "the Renders relation, or harness defect", model_events=str(po[2:]), spec_events=str(evs)),
+                        has_input=False)
+                sig = None
+                obs = (r["impl"], r.get("canon"))
+                if r["impl"] == 99:
+                    undeclared[r["info"]] = undeclared.get(r["info"], 0) + 1
+                    sig = "C17:parser:" + str(r["info"])
+                # oracle 1: equals programmatic construction
+                want = (pcode, pcanon)
+                if obs != want:
+                    if sig is None:
+                        sig = root_cause(gl, s, po, r["info"])
+                    violation(f"programmatic_{li}_{ti}_{ri}", dict(payload, kind="oracle",
+                        what="the parsed expression differs from the one built by calling the operators "
+                             "(structure, or the type of a node after fix(), or the error)",
+                        parsed=str(obs), programmatic=str((pcode, pcanon) if pcode == 0 else pname)),
+                        has_input=True, signature=sig)
+                # oracle 2: all renderings agree with the first one
+                if first is None:
+                    first = (obs, s)
+                elif obs != first[0] and obs == want:
+                    violation(f"notations_{li}_{ti}_{ri}", dict(payload, kind="oracle",
+                        what="two notations of the same tree parse differently", other_string=first[1],
+                        parsed=str(obs), other=str(first[0])), has_input=True,
+                        signature=root_cause(gl, first[1], pob[pos - ri - 1 + 0], None))
+                elif not r["agree"] and r["impl"] != 99 and obs == want:
+                    dis += 1
+                    violation(f"model_{li}_{ti}_{ri}", dict(payload, kind="correspondence",
+                        what="Language.parse and the parser model differ (K_C13)"), has_input=False)
+                # oracle 3: numbers are the supplied objects, dashes are fresh
+                if r["impl"] == 0:
+                    ex = r["expr"]
+                    srcs = [x for x in ex.leaves() if isinstance(x, gl.E.Source)]
+                    anon = [x for x in srcs if not any(x is i for i in r["inputs"])]
+                    if len({id(x) for x in anon}) != len(anon):
+                        violation(f"fresh_{li}_{ti}_{ri}", dict(payload, kind="oracle",
+                            what="one anonymous source object occurs twice"), has_input=True)
+                    # oracle 4: annotations leave the tree alone
+                    if plain_struct is not None and \
+                            canon_expr(gl, ex, r["inputs"], with_types=False) != plain_struct:
+                        violation(f"annot_{li}_{ti}_{ri}", dict(payload, kind="oracle",
+                            what="an annotation changed the tree", without=str(plain_struct)), has_input=True)
+                    if len(samples) < 4 and ri >= 3 and tree_size(e) >= 5 and len(s) < 160:
+                        samples.append({"tree": tree_text(e), "string": s, "result": str(r.get("canon"))[:300]})
+                    if len(match_items) < (300 if tier == "quick" else 5000) and ri in (0, 2, 3, 4):
+                        match_items.append((li, gl, e, decl, s, ex, r["inputs"], r.get("canon")))
+        for mi, (ni, s, decl) in enumerate(mal):
+            po, tk = pob[pos], tok[pos]
+            pos += 1
+            n_eval += 1
+            d = (list(decl) + [None, None, None])[:ni]
+            r = check_string(gl, s, d, po, tk)
+            name = CODENAME.get(r["impl"], "undeclared") if r["impl"] != 99 else "undeclared"
+            outcomes["malformed:" + name] = outcomes.get("malformed:" + name, 0) + 1
+            if r["impl"] == 99:
+                undeclared[r["info"]] = undeclared.get(r["info"], 0) + 1      # C17's business
+            elif not r["agree"] or not r["tokens_agree"]:
+                dis += 1
+                violation(f"model_mal_{li}_{mi}", {"kind": "correspondence", "language": gl.describe(),
+                    "string": s, "ninputs": ni, "impl": name, "impl_info": r["info"],
+                    "model": CODENAME.get(r["model"]), "predicted": CODENAME.get(r["predicted"]),
+                    "what": "Language.parse and the parser model differ on a malformed string (K_C13)"},
+                    has_input=False, signature=root_cause(gl, s, po, r["info"]))
+
+    # ---- Expr.match
+    mpairs = []
+    for (li, gl, e, decl, s, ex, inputs, canon) in match_items:
+        if canon is None:
+            continue
+        k = rng.random()
+        if k < 0.4:
+            core, s2 = Renderer(rng).render(e)
+            what = "same tree, other notation"
+            e2 = e
+        else:
+            e2, w = variant(rng, gl, e)
+            s2 = plain_render(e2)
+            what = "differs in " + w
+        code2, _, ex2, in2, _ = impl_parse(gl, s2, decl)
+        if code2 != 0:
+            continue
+        c2 = fixed_canon(gl, ex2, in2)
+        if c2[0] == "fix-raised":
+            continue
+        try:
+            verdict = bool(ex.match(ex2))
+            verdict_rev = bool(ex2.match(ex))
+        except Exception as exn:   # noqa: BLE001
+            violation(f"match_raises_{len(mpairs)}", {"kind": "oracle", "a": s, "b": s2,
+                "what": f"Expr.match raised {type(exn).__name__}"}, has_input=True)
+            continue
+        want = match_key(gl, canon) == match_key(gl, c2)
+        mpairs.append((li, gl, canon, c2, verdict, what))
+        if verdict != want or verdict_rev != want:
+            violation(f"match_{len(mpairs)}", {"kind": "oracle", "language": gl.describe(), "a": s, "b": s2,
+                "a_parsed": str(canon), "b_parsed": str(c2), "match": verdict, "match_reversed": verdict_rev,
+                "same_shape_operators_source_types": want,
+                "what": "Expr.match disagrees with equality of shape, operators and source types"}, has_input=True)
+    # the model of match on the same pairs
+    by_lang = {}
+    for i, (li, gl, a, b, v, what) in enumerate(mpairs):
+        ma, mb = mx_coq(gl, a), mx_coq(gl, b)
+        if ma is not None and mb is not None:
+            by_lang.setdefault(li, (gl, []))[1].append((i, ma, mb))
+    mblocks = []
+    keys = sorted(by_lang)
+    for li in keys:
+        gl, items = by_lang[li]
+        mblocks.append((f"Definition H_{li} := {hier_coq(gl)}.\n"
+            f"Eval vm_compute in map (fun p => ematch H_{li} (fst p) (snd p)) ["
+            + ";\n ".join(f"({a}, {b})" for _, a, b in items) + "].\n", 1))
+    match_model = 0
+    if mblocks:
+        mouts = C.coq_eval_blocks(f"C13_match_{tier}", MHDR, mblocks, nfiles=2)
+        for li, vals in zip(keys, mouts):
+            for (i, _, _), mv in zip(by_lang[li][1], vals[0]):
+                match_model += 1
+                if bool(mv) != mpairs[i][4]:
+                    dis += 1
+                    violation(f"match_model_{i}", {"kind": "correspondence", "a": str(mpairs[i][2]),
+                        "b": str(mpairs[i][3]), "impl": mpairs[i][4], "model": bool(mv),
+                        "what": "Expr.match differs from the model ematch (Parse/ExMatch.v)"}, has_input=False)
+
+    mdist = {}
+    for (_, _, _, _, v, what) in mpairs:
+        key = f"{what}: {'match' if v else 'no match'}"
+        mdist[key] = mdist.get(key, 0) + 1
+    sizes.sort()
+    rep.coverage.update({
+        "evaluations": n_eval, "distinct_nontrivial": len(distinct), "disagreements": dis,
+        "rule": f"{nlang} generated languages (2-6 base types with subtyping, 1-3 compound operators, synonyms with "
+                f"and without parameters, 3-7 operators: concrete function types of arity 1-3, constants, schematic "
+                f"and constrained types); {ntree} expression trees per language built to be well-typed (12% of "
+                f"operator choices and 15% of annotation types are free, so ill-typed trees occur), each written "
+                f"plainly, without annotations, and in {nrend - 1} random mixes of f x y / f(x, y) / (f x) y / (x, y), "
+                f"redundant brackets around expressions and inside annotation types, blanks/TAB/CR, newlines, "
+                f"comments, non-ASCII decimal digits; plus {nmal} mutated strings per language for the "
+                f"correspondence only; non-trivial = a random mix of a tree with at least 3 nodes",
+        "trees": n_trees, "tree_size_quartiles": [sizes[len(sizes) * q // 4] for q in range(4)] + [sizes[-1]] if sizes else [],
+        "notation_features_used": feats, "outcome_distribution": outcomes,
+        "undeclared_exceptions_seen_(C17)": undeclared,
+        "call_order_differences": pythonic_diff,
+        "match_pairs": len(mpairs), "match_pairs_in_model": match_model, "match_distribution": mdist,
+        "samples": samples, "violations_found": viol, "exhaustive": False,
+        "wall_generate_s": round(time.time() - t_gen, 1)})
+    rep.assumptions = [
+        "the type checker is abstract in the theorems (St, step): they state that parser and programmatic "
+        "construction make the same calls in the same order; that the calls then infer the same types is "
+        "observed on the implementation by this run, not proved",
+        "f(x, y) evaluates its arguments before the first application; equality with f(x)(y) is order-"
+        "independence of inference and is only tested here (C13_typed_partial in DESIGN.md)",
+        "str.isdecimal / int / tokenize's groupby are modelled on the characters the generators use",
+        "Expr.match is modelled for expressions without abstractions whose sources have concrete or untouched "
+        "wildcard types",
+        "model/implementation agreement is tested, not proved"]
+    return rep.finish(C.TRUSTED)
